@@ -336,7 +336,189 @@ impl Space for RoundTrip {
                 let _ = std::fs::remove_dir_all(&outdir);
             }
         }
+        // ---- the same selection through a patch chain: a second archive holding one more member
+        // (chain extraction is a separate code path of the tool; judged by the same rules)
+        if fs.files.len() <= 100 && !fs.files.is_empty() {
+            let extra_name = "chain_only_member.bin";
+            let extra = gen::content("period251", 123, 4096, 77);
+            std::fs::write(indir.join(extra_name), &extra).expect("write input");
+            let o = rn.run(&["mpq".into(), "create".into(), "p.mpq".into(), "--add".into(), format!("in/{extra_name}"), "--version".into(), ver.into(), "--compression".into(), comp.into(), "--with-listfile".into()]);
+            r.count("processes", 1);
+            if o.ok() {
+                for preserve in [false, true] {
+                    let od = format!("c{}", preserve as u8);
+                    let mut args: Vec<String> = vec!["mpq".into(), "extract".into(), "a.mpq".into(), "--patch".into(), "p.mpq".into(), "-o".into(), od.clone()];
+                    let mut expected: Vec<(String, Vec<u8>)> = vec![];
+                    match sel {
+                        0 => {
+                            expected = fs.files.iter().filter(|(n, _)| view.names.iter().any(|x| x == n)).cloned().collect();
+                        }
+                        _ => {
+                            for (k, f) in explicit.iter().enumerate() {
+                                if sel == 2 && k == explicit.len() / 2 {
+                                    args.push(MISSING.into());
+                                }
+                                args.push(f.0.clone());
+                                expected.push((f.0.clone(), f.1.clone()));
+                            }
+                            args.push(extra_name.into());
+                            expected.push((extra_name.into(), extra.clone()));
+                        }
+                    }
+                    if preserve {
+                        args.push("-p".into());
+                    }
+                    if skip {
+                        args.push("--skip-errors".into());
+                    }
+                    let o = rn.run(&args);
+                    r.count("processes", 1);
+                    r.count("chain_extractions", 1);
+                    let ctx = format!("patch chain, preserve={preserve}");
+                    if sel == 2 && !skip {
+                        if o.ok() {
+                            r.viol("mpq extract --patch: exit 0 although an explicitly requested name is missing and --skip-errors is off", format!("{ctx}: {}", o.brief()));
+                        }
+                        continue;
+                    }
+                    if !o.ok() {
+                        r.err_return = true;
+                        r.count("chain_extract_refused", 1);
+                        continue;
+                    }
+                    let outdir = rn.cwd.join(&od);
+                    for (n, want) in &expected {
+                        match landing_places(&outdir, n).into_iter().find_map(|p| std::fs::read(p).ok()) {
+                            None => r.viol("mpq extract --patch: exit 0 but a requested member is not in the output directory", format!("{ctx}: member {n:?}; {}", o.brief())),
+                            Some(g) if &g != want => r.viol("mpq extract --patch: exit 0 but an extracted file differs from the input that was archived", format!("{ctx}: member {n:?}: {} bytes extracted, {} bytes archived", g.len(), want.len())),
+                            Some(_) => r.count("files_compared", 1),
+                        }
+                    }
+                    let _ = std::fs::remove_dir_all(&outdir);
+                }
+            } else {
+                r.count("chain_patch_archive_refused", 1);
+            }
+        }
         r.outcome = format!("extract:{oc}");
+        r
+    }
+}
+
+// ====================================================================== space (i-b): list --filter
+
+/// `mpq list --filter P` must print exactly the library's names that match P. The matcher below is the
+/// plain reading of the option's help text ("supports wildcards"): `*` matches any run of characters, the
+/// rest is literal and case-insensitive, the whole name must match; a pattern without `*` is a substring
+/// search (the tool's documented fallback). Names: every order of three tokens; patterns: every order of
+/// one, two and three tokens with `*` in every subset of the gaps and ends.
+struct ListFilter {
+    names: Vec<String>,
+    patterns: Vec<String>,
+}
+fn glob(p: &[u8], t: &[u8]) -> bool {
+    match p.split_first() {
+        None => t.is_empty(),
+        Some((b'*', rest)) => (0..=t.len()).any(|k| glob(rest, &t[k..])),
+        Some((c, rest)) => t.first().map(|x| x.eq_ignore_ascii_case(c)).unwrap_or(false) && glob(rest, &t[1..]),
+    }
+}
+impl ListFilter {
+    fn new(tier: Tier) -> ListFilter {
+        let toks = ["interface", "map", "ui"];
+        let mut names = vec![];
+        let perms: [[usize; 3]; 6] = [[0, 1, 2], [0, 2, 1], [1, 0, 2], [1, 2, 0], [2, 0, 1], [2, 1, 0]];
+        for p in perms {
+            names.push(format!("{}_{}_{}.blp", toks[p[0]], toks[p[1]], toks[p[2]]));
+            names.push(format!("{}\\{}{}.TXT", toks[p[0]].to_uppercase(), toks[p[1]], toks[p[2]]));
+        }
+        names.push("ui".into());
+        names.push("mapmap.bin".into());
+        let mut patterns: Vec<String> = vec!["*".into(), "".into()];
+        let mut seqs: Vec<Vec<usize>> = vec![];
+        for a in 0..3 {
+            seqs.push(vec![a]);
+            for b in 0..3 {
+                seqs.push(vec![a, b]);
+                for c in 0..3 {
+                    if tier == Tier::Thorough || (a != b && b != c && a != c) {
+                        seqs.push(vec![a, b, c]);
+                    }
+                }
+            }
+        }
+        for sq in seqs {
+            // a star in every gap; leading / trailing star in all four combinations
+            let mid: String = sq.iter().map(|&k| toks[k]).collect::<Vec<_>>().join("*");
+            for (l, t) in [(false, false), (true, false), (false, true), (true, true)] {
+                patterns.push(format!("{}{}{}", if l { "*" } else { "" }, mid, if t { "*" } else { "" }));
+            }
+        }
+        patterns.push("MAP*.blp".into());
+        patterns.push("*.txt".into());
+        patterns.push("**ui**".into());
+        patterns.sort();
+        patterns.dedup();
+        ListFilter { names, patterns }
+    }
+}
+impl Space for ListFilter {
+    fn len(&self) -> u64 {
+        self.patterns.len() as u64
+    }
+    fn describe(&self, i: u64) -> Value {
+        json!({"space": "listfilter", "pattern": self.patterns[i as usize], "names": self.names.len()})
+    }
+    fn run(&self, i: u64) -> CaseResult {
+        let pat = &self.patterns[i as usize];
+        let mut r = CaseResult::new();
+        r.key = format!("lf{i}");
+        let scratch = Scratch::new(&scratch_tag());
+        let rn = Runner::new(&scratch.0, 60);
+        let indir = rn.cwd.join("in");
+        std::fs::create_dir_all(&indir).unwrap();
+        // the archive is written by the library (names with directories), the tool only lists it
+        let apath = rn.cwd.join("a.mpq");
+        let mut b = wow_mpq::ArchiveBuilder::new().listfile_option(wow_mpq::ListfileOption::Generate);
+        for (k, n) in self.names.iter().enumerate() {
+            b = b.add_file_data(vec![k as u8; 3 + k], n);
+        }
+        b.build(&apath).expect("build list archive");
+        let view = match mpq_view(&apath, false) {
+            Ok(v) => v,
+            Err(e) => {
+                r.viol("listfilter: library cannot open its own archive", e);
+                return r;
+            }
+        };
+        let mut args: Vec<String> = vec!["mpq".into(), "list".into(), "a.mpq".into()];
+        if !pat.is_empty() {
+            args.push("--filter".into());
+            args.push(pat.clone());
+        }
+        let o = rn.run(&args);
+        r.count("processes", 1);
+        r.nontrivial = true;
+        if !o.ok() {
+            r.err_return = true;
+            r.outcome = format!("list:{}", o.class());
+            return r;
+        }
+        // an empty result is reported as a sentence, not as an empty listing
+        let mut got: Vec<String> = o.stdout.lines().map(|l| l.to_string()).filter(|l| !l.is_empty() && !l.starts_with("No files found")).collect();
+        got.sort();
+        let mut want: Vec<String> = view
+            .names
+            .iter()
+            .filter(|n| if pat.is_empty() { true } else if pat.contains('*') { glob(pat.as_bytes(), n.as_bytes()) } else { n.to_lowercase().contains(&pat.to_lowercase()) })
+            .cloned()
+            .collect();
+        want.sort();
+        r.outcome = format!("listed:{}", got.len().min(3));
+        if got != want {
+            r.viol("mpq list --filter: printed names differ from the library's names that match the pattern", format!("pattern {pat:?}: printed {got:?}, matching {want:?}"));
+        }
+        r.count("filtered_lists_compared", 1);
         r
     }
 }
@@ -347,6 +529,7 @@ fn build(name: &str, _arg: &str, tier: Tier) -> Box<dyn Space> {
     match name {
         "roundtrip" => Box::new(RoundTrip::new(tier)),
         "manyfiles" => Box::new(RoundTrip::many(tier)),
+        "listfilter" => Box::new(ListFilter::new(tier)),
         "subcmd" => Box::new(subcmd::SubCmd::new(tier)),
         _ => panic!("space {name}"),
     }
@@ -417,8 +600,9 @@ fn main() {
     let Mode::Supervisor(mut c) = start("C20", "exploration", build) else { return };
     let tier = c.tier;
     c.rule = format!(
-        "space roundtrip (clause i): FULL PRODUCT file set ({nsets}: one / three / twelve sizes 1..20000 / with empty file / with 70 KiB file / names with spaces{more_sets}) x create --version {{v1..v4}} x --compression {{none,zlib,bzip2,lzma}} x --with-listfile {{off,on}} x extract selection {{all, explicit names (every other member), explicit names incl. one missing}} x --skip-errors {{off,on}}; inside each case --threads {threads} x --preserve-paths {{off,on}} (one `mpq extract` process each), and for selection=all/skip=off also `mpq list`, `mpq info`, `mpq tree` compared with the library's list()/get_info(). \
+        "space roundtrip (clause i): FULL PRODUCT file set ({nsets}: one / three / twelve sizes 1..20000 / with empty file / with 70 KiB file / names with spaces{more_sets}) x create --version {{v1..v4}} x --compression {{none,zlib,bzip2,lzma}} x --with-listfile {{off,on}} x extract selection {{all, explicit names (every other member), explicit names incl. one missing}} x --skip-errors {{off,on}}; inside each case --threads {threads} x --preserve-paths {{off,on}} (one `mpq extract` process each), the same selection once more through `--patch` with a second archive holding one more member (x preserve-paths), and for selection=all/skip=off also `mpq list`, `mpq info`, `mpq tree` compared with the library's list()/get_info(). \
          space manyfiles (clause i): the same round trip on archives of {many} small files (1..61 bytes each), the member counts at which the tool and the library change extraction strategy (batch size 10 / 25 / computed, batched extraction above 1000 names), {many_axes}; explicit selection names every member. \
+         space listfilter (clause i, list agrees with the library): `mpq list --filter P` on a library-built archive of 14 names (every order of three tokens, two spellings) for every pattern made of 1..3 tokens with `*` in the gaps and at the ends; printed names must equal the library's names that match P (`*` = any run, case-insensitive, whole name; no `*` = substring). \
          space subcmd (clause ii): EVERY (sub-command template x seed of its input family x damage class): {ntpl} templates over mpq/dbc/dbd/blp/m2(+skin,anim)/wmo/adt/wdt/wdl (every sub-command found with --help at every level, convert over all target versions), seeds from each crate's own writer/builder, damage classes {dmg}. \
          Rules applied (and nothing else): R1 nonexistent/empty/garbage/truncated-below-8-bytes input => exit != 0; R2 validate/convert/export/extract/rebuild exit 0 => the library's own parse of the same bytes is Ok; R3 validate exit 0 => the library-level validation it wraps reports no error, and its own output carries no failure marker; R4 exit 0 with an output argument (and no 'No conversion needed'/'Preview mode'/'Dry run' statement) => output exists, is non-empty and the library parser for its format accepts it; R5 mpq extract / rebuild exit 0 (without --skip-errors) => every member the library lists is present and, where the library can read it, bit-identical. \
          A case is non-trivial when the tool was actually started on the prepared input and ended with an exit status; distinct by (template, seed, damage) resp. by the axis tuple.",
@@ -435,6 +619,7 @@ fn main() {
     c.assume("a non-zero exit where success was possible is a refusal (counted in error_returns), never a violation; timeouts and deaths by signal count as non-zero exits");
     c.run_space("roundtrip", "");
     c.run_space("manyfiles", "");
+    c.run_space("listfilter", "");
     c.run_space("subcmd", "");
     let sets = filesets(tier);
     c.extra_cov.insert(
